@@ -457,3 +457,25 @@ def dae_config(r, hooks=()):
         'run': {'t0': 0.0, 'Tend': nsteps * dt, 'u0': 'exact'},
     }
     return {'engine': 'blocksim', 'config': cfg, 'plugins': ['MonFirst'], 'faults': {}, 'max_events': 100000, 'axis_kind': 'dae'}
+
+
+def paradiag_config(r):
+    """Fixed-step ParaDiag runs (serial emulation), Dahlquist / IMEX Dahlquist, full and partial last blocks."""
+    P = r.choice([1, 2, 3, 4, 4, 8])
+    dt = r.choice([0.125, 0.1, 0.05, 0.25])
+    nblocks = r.randint(1, 4)
+    t0 = r.choice([0.0, 0.0, 1.0, -2.0])
+    imex = r.random() < 0.4
+    n = r.randint(1, 3)
+    cfg = stub_config(P, 1, 40, dt=dt, restol=10 ** r.uniform(-11, -8))
+    cfg['controller_class'] = 'ParaDiag'
+    cfg['controller'] = {'mssdc_jac': False, 'alpha': 10 ** r.uniform(-8, -2)}
+    cfg['sweeper'] = {'class': 'QDiagonalizationIMEX' if imex else 'QDiagonalization', 'params': {'num_nodes': r.randint(1, 4), 'quad_type': 'RADAU-RIGHT', 'initial_guess': 'spread'}}
+    if imex:
+        cfg['problem'] = {'class': 'test_equation_IMEX', 'params': {'lambdas_implicit': [[-r.uniform(0.2, 4.0), 0.0] for _ in range(n)], 'lambdas_explicit': [[-r.uniform(0, 0.3), r.uniform(-0.5, 0.5)] for _ in range(n)], 'u0': 1.0}}
+    else:
+        cfg['problem'] = {'class': 'testequation0d', 'params': {'lambdas': [[-r.uniform(0.2, 4.0), r.uniform(-1, 1)] for _ in range(n)], 'u0': 1.0}}
+    partial = r.random() < 0.2 and P > 1
+    steps = nblocks * P - (r.randint(1, P - 1) if partial else 0)
+    cfg['run'] = {'t0': t0, 'Tend': t0 + steps * dt, 'u0': r.choice(['ones', 'exact'])}
+    return {'engine': 'blocksim', 'config': cfg, 'plugins': ['MonFirst'], 'faults': {}, 'max_events': 200000, 'axis_kind': 'paradiag'}
